@@ -61,7 +61,7 @@ theorem exprForces_false {l r : Value} {op : Char} {m : Mode}
     (op = '+' ∨ op = '-') ∧ ∃ k hh mm nn, (if l.isAddress then r else l) = .numeric k hh mm nn := by
   unfold exprForces at hf
   simp only [Bool.or_eq_false_iff, Bool.not_eq_false'] at hf
-  obtain ⟨h1, h2⟩ := hf
+  obtain ⟨⟨h1, h2⟩, _⟩ := hf
   refine ⟨?_, ?_⟩
   · rcases (Bool.or_eq_true _ _).mp h1 with h | h
     · exact .inl (by simpa using h)
@@ -69,6 +69,14 @@ theorem exprForces_false {l r : Value} {op : Char} {m : Mode}
   · generalize (if l.isAddress = true then r else l) = oth at h2
     cases oth <;> simp [Value.isNumeric] at h2
     exact ⟨_, _, _, _, rfl⟩
+
+/-- batch 4, the third disjunct of `exprForces`: `number - label` is forced to the 16-bit form, so on an expression
+that is NOT forced a `-` has no label on its right -/
+theorem exprForces_false_minus {l r : Value} {m : Mode}
+    (hf : exprForces (.expr l r '-' m true) = false) : r.isAddress = false := by
+  unfold exprForces at hf
+  simp only [Bool.or_eq_false_iff] at hf
+  simpa using hf.2
 
 theorem signedK_bound (k : Nat) (nn : Bool) : -(k : Int) ≤ signedK k nn ∧ signedK k nn ≤ k := by
   unfold signedK; split <;> omega
@@ -102,23 +110,20 @@ theorem addrCombine_pm {op : Char} (hop : op = '+' ∨ op = '-') {a b : Int} {v 
   · simp only [hne, Bool.false_eq_true, if_false, beq_self_eq_true, if_true, hne'] at h ⊢
     exact key _ h
 
-/-- `label ± c`, `c ± label` (batch B3: left `op` right in the written order, reduced modulo 65536): for `+` the target is
-`(address(label) + c) mod 65536`; for `-` it is `(address(label) − c) mod 65536` when the label stands on the left, and
-`(c − address(label)) mod 65536` when it stands on the right (`5-L`).  `c` is the SIGNED constant (`exprExtra`, which
-widens the estimates of the size loop, is its magnitude).  `hlr`: one of the two sides is a label (true of every value
-the front end builds with the address-expression flag) -/
-theorem fixRel_target_expr {ss : List Stmt} {s2 : Stmt} {l r : Value} {op : Char} {m : Mode} {b target : Nat}
+/-- `fixRel_target_expr` from what it really uses: the operator is `+` or `-` and the other side is a number (batch 4:
+`exprForces = false` is no longer implied by that — `number - label` is forced to the 16-bit form — but the target
+`fix_addresses` computes is the same) -/
+theorem fixRel_target_expr_pm {ss : List Stmt} {s2 : Stmt} {l r : Value} {op : Char} {m : Mode} {b target k : Nat}
+    {hh : Option Nat} {mm : Mode} {nn : Bool}
     (hidx : (s2.operand.kind == .indexed || s2.operand.kind == .extIndirect) = true)
     (ha : s2.pkg.additional = .expr l r op m true) (hlr : l.isAddress = true ∨ r.isAddress = true)
-    (hf : exprForces s2.pkg.additional = false)
+    (hop : op = '+' ∨ op = '-') (hoth : (if l.isAddress then r else l) = .numeric k hh mm nn)
     (hr : relIndex s2.pkg.additional = some b) (h : fixRel ss s2 = .ok target) :
-    ∃ y k hh mm nn, addrIntOf ss b = some y ∧ (if l.isAddress then r else l) = .numeric k hh mm nn ∧
-      exprExtra s2.pkg.additional = k ∧
+    ∃ y, addrIntOf ss b = some y ∧ exprExtra s2.pkg.additional = k ∧
       ((op = '+' ∧ (target : Int) = ((y : Int) + signedK k nn) % 65536) ∨
        (op = '-' ∧ l.isAddress = true ∧ (target : Int) = ((y : Int) - signedK k nn) % 65536) ∨
        (op = '-' ∧ l.isAddress = false ∧ (target : Int) = (signedK k nn - (y : Int)) % 65536)) := by
-  rw [ha] at hf hr
-  obtain ⟨hop, k, hh, mm, nn, hoth⟩ := exprForces_false hf
+  rw [ha] at hr
   have hrel : (if l.isAddress = true then l.int? else r.int?) = some b := hr
   have hx : exprExtra s2.pkg.additional = k := by
     rw [ha]
@@ -154,7 +159,7 @@ theorem fixRel_target_expr {ss : List Stmt} {s2 : Stmt} {l r : Value} {op : Char
         | some y =>
           rw [hy] at h1
           cases h1; cases h2
-          refine ⟨y, k, hh, mm, nn, rfl, rfl, hx, ?_⟩
+          refine ⟨y, rfl, hx, ?_⟩
           rcases hop with rfl | rfl
           · left; exact ⟨rfl, by simpa [signedK] using hval⟩
           · right; left
@@ -176,7 +181,7 @@ theorem fixRel_target_expr {ss : List Stmt} {s2 : Stmt} {l r : Value} {op : Char
         | some y =>
           rw [hy] at h2
           cases h1; cases h2
-          refine ⟨y, k, hh, mm, nn, rfl, rfl, hx, ?_⟩
+          refine ⟨y, rfl, hx, ?_⟩
           rcases hop with rfl | rfl
           · left
             refine ⟨rfl, ?_⟩
@@ -188,6 +193,27 @@ theorem fixRel_target_expr {ss : List Stmt} {s2 : Stmt} {l r : Value} {op : Char
   | diag => rw [ho] at h; cases h
   | internal => rw [ho] at h; cases h
   | diverged => rw [ho] at h; cases h
+
+/-- `label ± c`, `c ± label` (batch B3: left `op` right in the written order, reduced modulo 65536): for `+` the target is
+`(address(label) + c) mod 65536`; for `-` it is `(address(label) − c) mod 65536` when the label stands on the left, and
+`(c − address(label)) mod 65536` when it stands on the right (`5-L`).  `c` is the SIGNED constant (`exprExtra`, which
+widens the estimates of the size loop, is its magnitude).  `hlr`: one of the two sides is a label (true of every value
+the front end builds with the address-expression flag) -/
+theorem fixRel_target_expr {ss : List Stmt} {s2 : Stmt} {l r : Value} {op : Char} {m : Mode} {b target : Nat}
+    (hidx : (s2.operand.kind == .indexed || s2.operand.kind == .extIndirect) = true)
+    (ha : s2.pkg.additional = .expr l r op m true) (hlr : l.isAddress = true ∨ r.isAddress = true)
+    (hf : exprForces s2.pkg.additional = false)
+    (hr : relIndex s2.pkg.additional = some b) (h : fixRel ss s2 = .ok target) :
+    ∃ y k hh mm nn, addrIntOf ss b = some y ∧ (if l.isAddress then r else l) = .numeric k hh mm nn ∧
+      exprExtra s2.pkg.additional = k ∧
+      ((op = '+' ∧ (target : Int) = ((y : Int) + signedK k nn) % 65536) ∨
+       (op = '-' ∧ l.isAddress = true ∧ (target : Int) = ((y : Int) - signedK k nn) % 65536) ∨
+       (op = '-' ∧ l.isAddress = false ∧ (target : Int) = (signedK k nn - (y : Int)) % 65536)) := by
+  have hf' := hf
+  rw [ha] at hf'
+  obtain ⟨hop, k, hh, mm, nn, hoth⟩ := exprForces_false hf'
+  obtain ⟨y, h1, h2, h3⟩ := fixRel_target_expr_pm hidx ha hlr hop hoth hr h
+  exact ⟨y, k, hh, mm, nn, h1, hoth, h2, h3⟩
 
 /-! ### the statement that enters `fix_addresses` -/
 
